@@ -133,7 +133,7 @@ def parse_contract(path):
             kw, arg = m.group(1), m.group(2).strip()
             if kw == "unit":
                 flush()
-                cur = UnitContract(arg)
+                cur = units.get(arg) or UnitContract(arg)
                 units[arg] = cur
                 section = "none"
                 continue
@@ -274,8 +274,14 @@ def splice_fn(a, item, uc, group_props, canary=False, drop_hints=()):
     fnname = re.match(r"fn\s+(\w+)", sig).group(1)
     if canary:
         params = params.replace("fn " + fnname, "fn " + fnname + "__canary", 1)
+    sp = sig_pre.rstrip()
+    if sp.endswith("pub"):
+        sig_pre = sp[:-3]
+        params = "pub " + params
     ustart = len(a.lines) + 1
     attrs = "".join("    #[%s]\n" % x for x in (uc.attrs if uc else []))
+    if item.get("assume"):
+        attrs += "    #[verifier::external_body]\n"
     a.add(sig_pre.rstrip("\n").rstrip(" ") if sig_pre.strip() else "")
     a.add(attrs.rstrip("\n")) if attrs else None
     if ret is not None:
@@ -302,6 +308,15 @@ def splice_fn(a, item, uc, group_props, canary=False, drop_hints=()):
             a.add("        %s is Ok ==> false," % rn, uid, "canary", "canary", [])
         else:
             a.add("        false,", uid, "canary", "canary", [])
+    if item.get("assume"):
+        # abstracted callee: the contract (same text as where it is proved) is ASSUMED here
+        a.add("{ unimplemented!() }")
+        if sig_pre.strip().startswith("impl"):
+            a.add("}")
+        uend = len(a.lines)
+        a.map.append((ustart, uend, uid, "assumed", "assumed", []))
+        a.assumed = getattr(a, "assumed", []) + [uid]
+        return
     a.add("{")
     # body: process markers line by line
     used_at = set()
@@ -420,6 +435,7 @@ def extract(group, workdir):
     for it, p, gi in zip(items, parts, group["items"]):
         it["ftext"] = p.strip("\n") + "\n"
         it["props"] = gi.get("props", [])
+        it["assume"] = bool(gi.get("assume"))
         # provenance hash of the original source lines
         try:
             src_lines = open(os.path.join(SRC, it["file"])).read().split("\n")[it["line_start"] - 1:it["line_end"]]
@@ -461,7 +477,7 @@ def assemble(group, items, units, preamble, canary=False, drop_hints=()):
             if "vx_contract!" not in it["ftext"]:
                 continue
             uc = units.get(it["id"])
-            if uc is None or uc.canary == "none":
+            if uc is None or uc.canary == "none" or it.get("assume"):
                 continue
             modk += 1
             a.add("} // verus!\npub mod vxm_%d { use super::*; verus! {" % modk)
@@ -626,7 +642,24 @@ def build_group(name, canary=True):
     for cf in group["contracts"]:
         pre, us = parse_contract(os.path.join(ROOT, cf))
         preamble_parts.append("// ---- from %s\n%s" % (cf, pre))
-        units.update(us)
+        for uid, u in us.items():
+            if uid in units:
+                o = units[uid]
+                o.requires += u.requires
+                o.ensures += u.ensures
+                for k, v in u.at.items():
+                    o.at.setdefault(k, []).extend(v)
+                o.loops.update(u.loops)
+                if u.safety is not None:
+                    o.safety = u.safety
+                o.attrs += u.attrs
+            else:
+                units[uid] = u
+    # units present in shared contract files but not part of this group's plan are ignored
+    plan_ids = set(i["id"] for i in items)
+    for uid in list(units):
+        if uid not in plan_ids:
+            del units[uid]
     preamble = "\n".join(preamble_parts)
     a = assemble(group, items, units, preamble, canary=False)
     main_path = os.path.join(wd, "unit.rs")
